@@ -9,6 +9,13 @@ endpoint; harness/cmd/epdrive renders them (canonical and with seeded extra blan
 endpoint.Parse / Endpoint2tars / Tars2endpoint and records everything; TLC judges every record.  Every
 string up to length 4 (5 in the thorough tier) over {t,c,p,u,d,s,l,' ',-,h,1}, mutated well-formed texts
 and seeded random strings must not panic.
+The sites that use a parsed endpoint are driven as well (harness/cmd/epdrive/sites.go), through the public API: a
+direct object address (one text, or a ':'-separated list) given to tars.NewServantProxy -- what its endpoint manager
+holds (ServantProxy.Endpoints) against Endpoint!Parse of the tokens, and its cache keys against those the manager
+holds when a registry describes the same endpoints; and the endpoint line of a server adapter / the administration
+endpoint of a server configuration read by child processes (parseServerConfig) -- the stored adapter endpoint against
+Endpoint!Parse of the line (the bind address -b absent / equal to -h / different), its key against the registry's
+description and against what the application announces for it (classes mgr and adp of Oracle_Endpoint).
 """
 import copy
 import json
@@ -17,12 +24,14 @@ import re
 from concurrent.futures import ThreadPoolExecutor
 
 from lib import gobuild, tlc
-from lib.core import Inconclusive, VERIF, sh
+from lib.core import Inconclusive, REPO, VERIF, sh
 
 SPEC = "Endpoint"
 LETTERS = "hptgqwveb"
-JUDGED = ("panics", "parse", "round", "reground", "conv_round", "key_conv", "key_reg", "key_group")
-OBS = ("obs_repeat", "obs_totars", "obs_fromreg", "obs_keytext", "obs_proto", "obs_str", "obs_setid0", "obs_convkey")
+JUDGED = ("panics", "parse", "round", "reground", "conv_round", "key_conv", "key_reg", "key_group",
+          "mgr_count", "mgr_field", "mgr_key", "adp_field", "adp_key_reg", "adp_key_ann", "adp_round")
+OBS = ("obs_repeat", "obs_totars", "obs_fromreg", "obs_keytext", "obs_proto", "obs_str", "obs_setid0", "obs_convkey",
+       "obs_mgrreg", "obs_listen")
 
 
 def tmpl(name, **kw):
@@ -133,9 +142,33 @@ def selftest(ctx, recs, cases, main_flagged):
     def crash(r):
         r["panic"], r["where"] = True, "Parse"
     corrupt("panics", None, lambda r: True, crash, txt)
+    # the sites: a manager that holds another host / another key than the text names, an adapter stored under its bind address
+    mgr = [r for r in clean if r["cls"] == "mgr" and len(r["parts"]) == 1 and distinct_letters(r["parts"][0]["opts"])]
+    adp = [r for r in clean if r["cls"] == "adp" and distinct_letters(r["opts"])]
+
+    def upper_host(r):
+        return any(t["o"] == "h" and t["s"] != t["s"].lower() for t in r["parts"][0]["opts"])
+
+    def lower_all(r):
+        r["d"][0]["host"] = r["d"][0]["host"].lower()
+        r["d"][0]["key"] = r["d"][0]["key"].lower()
+    corrupt("mgr_field", "host", upper_host, lower_all, mgr)
+    corrupt("mgr_key", None, upper_host, lambda r: r["d"][0].__setitem__("key", r["d"][0]["key"].lower()), mgr)
+
+    def bind_other(r):
+        o = {t["o"]: t["s"] for t in r["opts"]}
+        return r["site"] == "adapter" and o.get("b", "") != "" and o.get("b") != o.get("h", "")
+
+    def host_is_bind(r):        # what folding "listen on -b if given" into the stored endpoint looks like
+        r["a"]["host"] = r["a"]["bind"]
+        r["f"]["host"] = r["a"]["bind"]
+        r["b"]["host"] = r["a"]["bind"]
+    corrupt("adp_field", "host", bind_other, host_is_bind, adp)
+    corrupt("adp_key_reg", None, lambda r: True, lambda r: r["a"].__setitem__("key", r["a"]["key"] + "x"), adp)
+    controls_sites = [copy.deepcopy(x) for x in mgr + adp if x["id"] not in used][:20]
     # untouched controls
     controls = [copy.deepcopy(x) for x in opt if x["id"] not in used][:25] + [copy.deepcopy(x) for x in txt if x["id"] not in used][:5]
-    out += controls
+    out += controls + controls_sites
     if grp is not None:
         for x in out:   # every record of the corrupted pair's endpoint is in the conflicting group
             if x["cls"] == "opt" and distinct_letters(x["opts"]) and ten(cases[x["case"] - 1]["exp"]) == grp and x["id"] not in expect:
@@ -192,7 +225,9 @@ def run(ctx):
             raise Inconclusive("case generation failed:\n%s" % "\n".join(r.out.splitlines()[-40:]))
         return p
     gen_f = pool.submit(gen)
-    exe = gobuild.build(ctx, "epdrive")
+    # with the test-only export of patches/C17-hooks.diff in the tree the listener address of an adapter is observed too
+    hooked = os.path.exists(os.path.join(REPO, "tars", "verif_export_conf.go"))
+    exe = gobuild.build(ctx, "epdrive", tags="verif,c17hooks" if hooked else "verif")
     cases_path = gen_f.result()
 
     # ---- 3. the real code
@@ -203,15 +238,23 @@ def run(ctx):
     if replay is not None:
         cases_path = os.path.join(work, "cases.ndjson")
         with open(cases_path, "w") as f:
-            if replay.get("case"):
+            if replay.get("cases"):
+                for c_ in replay["cases"]:
+                    f.write(json.dumps(c_) + "\n")
+            elif replay.get("case"):
                 f.write(json.dumps(dict(replay["case"], text=replay.get("text") or "")) + "\n")
         tp = os.path.join(work, "texts.ndjson")
         with open(tp, "w") as f:
-            if replay.get("t") is not None and not replay.get("case"):
+            if replay.get("t") is not None and not replay.get("case") and not replay.get("cases"):
                 f.write(json.dumps({"t": replay["t"]}) + "\n")
         args += ["-cases", cases_path, "-texts", tp, "-short", "-1", "-rnd", "0", "-mal", "0"]
+        if replay.get("site") == "mgr":
+            args += ["-mgr", "-1"] + (["-mgrlist"] if len(replay.get("cases") or []) > 1 else [])
+        elif replay.get("site") == "adp":
+            args += ["-adp", "-1"]
     else:
-        args += ["-cases", cases_path, "-short", str(short_len), "-rnd", str(ctx.pick(3000, 100000)), "-mal", str(ctx.pick(1200, 30000))]
+        args += ["-cases", cases_path, "-short", str(short_len), "-rnd", str(ctx.pick(3000, 100000)), "-mal", str(ctx.pick(1200, 30000)),
+                 "-mgr", str(ctx.pick(-1, 8000)), "-adp", str(ctx.pick(-1, 12000)), "-dir", os.path.join(work, "children")]
     rc, so, se = sh(args, timeout=600, check=False)
     if rc != 0:
         raise Inconclusive("epdrive failed (%d): %s %s" % (rc, so[-2000:], se[-2000:]))
@@ -233,7 +276,7 @@ def run(ctx):
             shards[g % nsh].append(line)
             mc_ = re.match(r'\{"cls":"(\w+)"', line)
             kcls = mc_.group(1) if mc_ else "?"
-            if kept.get(kcls, 0) < {"opt": 30000, "conv": 300, "mal": 600}.get(kcls, 2000):
+            if kept.get(kcls, 0) < {"opt": 30000, "conv": 300, "mal": 600, "mgr": 8000, "adp": 8000}.get(kcls, 2000):
                 kept[kcls] = kept.get(kcls, 0) + 1
                 keep.append(line)
     if n == 0:
@@ -274,6 +317,15 @@ def run(ctx):
         if seen_letters != set(LETTERS) or seen_protos != {"tcp", "udp", "ssl"} or total["judged"] < 1000 or total["conv"] < 50:
             raise Inconclusive("vacuous corpus: letters %s protos %s judged %d conv %d"
                                % (sorted(seen_letters), sorted(seen_protos), total["judged"], total["conv"]))
+        mixed = sum(1 for r in recs_head if r["cls"] == "mgr" and not r["panic"]
+                    and any(t["o"] in "hb" and t["s"] != t["s"].lower() for p_ in r["parts"] for t in p_["opts"]))
+        if (total["mgr_judged"] < 500 or total["mgr_lists"] < 20 or mixed < 20 or total["adp_judged"] < 500
+                or min(total["adp_bind_other"], total["adp_bind_same"], total["adp_bind_none"]) < 5) and not total["panics"]:
+            raise Inconclusive("vacuous site corpus: manager %d judged, %d lists, %d with mixed-case names; adapters %d judged, bind "
+                               "other/same/none %d/%d/%d" % (total["mgr_judged"], total["mgr_lists"], mixed, total["adp_judged"],
+                                                             total["adp_bind_other"], total["adp_bind_same"], total["adp_bind_none"]))
+        if total["mgr"] != counts.get("mgr", -1) or total["adp"] != counts.get("adp", -1):
+            raise Inconclusive("oracle saw %d/%d site records, driver wrote %s/%s" % (total["mgr"], total["adp"], counts.get("mgr"), counts.get("adp")))
         if total["opt"] != counts.get("opt", -1):
             raise Inconclusive("oracle saw %d opt records, driver wrote %d" % (total["opt"], counts.get("opt", -1)))
 
@@ -290,7 +342,13 @@ def run(ctx):
     def rep(rid):
         r = rec_by_id.get(rid, {})
         d = {"kind": "record", "text": r.get("text"), "t": r.get("t"), "observed": r}
-        if r.get("case"):
+        if r.get("cls") == "mgr":       # replayed through the manager, every member with the exact text it had
+            d["site"] = "mgr"
+            d["cases"] = [dict(cases[p_["case"] - 1], text=p_["text"]) for p_ in r.get("parts", [])] if replay is None else replay.get("cases")
+        elif r.get("cls") == "adp":
+            d["site"] = "adp"
+            d["cases"] = [dict(cases[r["case"] - 1], text=r.get("text"))] if replay is None else replay.get("cases")
+        elif r.get("case"):
             d["case"] = cases[r["case"] - 1]
         return d
 
@@ -324,6 +382,47 @@ def run(ctx):
             ctx.violate("C18:key-mismatch:%s:%s" % (sig, r.get("proto")), "%s: %r -> %r vs %r"
                         % (what, r.get("text"), (r.get("p") or {}).get("key"), other), rep(rid))
 
+    def part_exp(r, field):
+        return [cases[p_["case"] - 1]["exp"].get(field) for p_ in r.get("parts", []) if 0 < p_["case"] <= len(cases)]
+
+    for rid in sorted(total["mgr_count"]):
+        r = rec_by_id.get(rid, {})
+        ctx.violate("C18:manager-endpoint-count:%s" % r.get("site"),
+                    "a servant proxy created for the direct address %r (%d member(s)) holds %d endpoint(s); resolved through a registry "
+                    "listing the same endpoints it holds %d" % (r.get("text"), len(r.get("parts", [])), len(r.get("d", [])), len(r.get("r", []))), rep(rid))
+    for rid, field in sorted(total["mgr_field"]):
+        r = rec_by_id.get(rid, {})
+        ctx.violate("C18:manager-endpoint-field:%s:%s" % (field, r.get("site")),
+                    "the endpoint manager of the direct address %r holds %s=%r, the text names %r (endpoint.Parse of the same text is judged "
+                    "beside it: the difference arises on the way through tars.NewServantProxy / newEndpointManager)"
+                    % (r.get("text"), field, [e.get(field) for e in r.get("d", [])], part_exp(r, field)), rep(rid))
+    for rid in sorted(total["mgr_key"]):
+        r = rec_by_id.get(rid, {})
+        ctx.violate("C18:key-mismatch:direct-vs-registry-through-manager:%s" % ((r.get("parts") or [{}])[0].get("proto")),
+                    "one endpoint, two cache keys: the endpoint manager of the direct address %r holds key(s) %r, the manager of the same "
+                    "object resolved through a registry that lists the endpoint(s) the text names holds %r"
+                    % (r.get("text"), [e.get("key") for e in r.get("d", [])], [e.get("key") for e in r.get("r", [])]), rep(rid))
+    for rid, field in sorted(total["adp_field"]):
+        r = rec_by_id.get(rid, {})
+        exp = cases[r["case"] - 1]["exp"].get(field) if r.get("case") and r["case"] <= len(cases) else None
+        ctx.violate("C18:adapter-endpoint-field:%s:%s" % (field, r.get("site")),
+                    "the application read the %s endpoint line %r of its server configuration and stores %s=%r, the line names %r "
+                    "(bind address %r; stored endpoint %r, key %r)"
+                    % (r.get("site"), r.get("text"), field, (r.get("a") or {}).get(field), exp, (r.get("a") or {}).get("bind"),
+                       (r.get("a") or {}).get("str"), (r.get("a") or {}).get("key")), rep(rid))
+    for cat, sig, what in (("adp_key_reg", "adapter-vs-registry", "the registry's description of the endpoint the line names"),
+                           ("adp_key_ann", "adapter-vs-announced", "what the application announces to the registry for it (Endpoint2tars of the stored endpoint)")):
+        for rid in sorted(total[cat]):
+            r = rec_by_id.get(rid, {})
+            other = r.get("rk") if cat == "adp_key_reg" else (r.get("b") or {}).get("key")
+            ctx.violate("C18:key-mismatch:%s:%s" % (sig, r.get("proto")),
+                        "the adapter endpoint stored for the line %r has key %r, %s has key %r"
+                        % (r.get("text"), (r.get("a") or {}).get("key"), what, other), rep(rid))
+    for rid, field in sorted(total["adp_round"]):
+        r = rec_by_id.get(rid, {})
+        ctx.violate("C18:roundtrip-field:%s" % field, "Tars2endpoint(Endpoint2tars(e)) does not preserve the field (e = stored adapter endpoint "
+                    "of the line %r): %s %r -> %r" % (r.get("text"), field, (r.get("a") or {}).get(field), (r.get("b") or {}).get(field)), rep(rid))
+
     # ---- 7. evidence
     samples = []
     seen_how = set()
@@ -352,16 +451,24 @@ def run(ctx):
         "samples": samples,
         "model_checking": {"config": mc_cfg, "distinct": mc.distinct, "generated": mc.generated, "depth": mc.depth,
                            "theorems": ["TypeOK", "InvDefaults", "InvKind", "InvRoundTrip", "InvKeyStable", "InvTarsRoundTrip", "InvLastWins",
-                                        "InvOrderFree", "InvWeightRange", "InvKeyDirectVsRegistry", "InvKeySound", "StepLocal"]},
+                                        "InvOrderFree", "InvWeightRange", "InvKeyDirectVsRegistry", "InvKeySound", "InvBindApart", "StepLocal"]},
         "cases_enumerated_by_tlc": {k: sum(1 for c in cases if c["cls"] == k) for k in ("exh", "perm", "rand", "conv")},
         "records": {"total": judged_records, "by_class": counts, "judged_field_by_field": total["judged"],
                     "repeated_option_records": total["repeats"], "conversion_records": total["conv"],
                     "short_strings_distinct": total["short_distinct"], "short_alphabet_max_len": short_len,
                     "distinct_endpoints": total["endpoints"], "distinct_real_keys_per_shard": per_shard["real_keys"],
-                    "distinct_reference_keys_per_shard": per_shard["ref_keys"], "oracle_shards": len(verdicts)},
+                    "distinct_reference_keys_per_shard": per_shard["ref_keys"], "oracle_shards": len(verdicts),
+                    "direct_addresses_through_the_endpoint_manager": {"records": total.get("mgr"), "judged": total.get("mgr_judged"),
+                                                                      "address_lists": total.get("mgr_lists")},
+                    "adapter_endpoint_lines_read_by_child_processes": {
+                        "records": total.get("adp"), "judged": total.get("adp_judged"), "bind_differs_from_host": total.get("adp_bind_other"),
+                        "bind_equals_host": total.get("adp_bind_same"), "no_bind": total.get("adp_bind_none"),
+                        "listener_address_observed": hooked}},
         "judged_failures": {k: len(total[k]) for k in JUDGED},
         "observations_not_judged": dict({k: len(total[k]) for k in OBS},
-                                        note="obs_repeat = records with a repeated option that disagree with 'last occurrence wins'; "
+                                        note="obs_mgrreg = fields of the manager's endpoints on the registry path that differ from the "
+                                             "described endpoint; obs_listen = adapters whose listener address is not bind-else-host:port; "
+                                             "obs_repeat = records with a repeated option that disagree with 'last occurrence wins'; "
                                              "obs_keytext = key text differs from '<net> -h H -p P -t T'; obs_totars/obs_fromreg = registry "
                                              "structure fields differ from the endpoint's; real vs reference key counts show whether the "
                                              "key separates exactly (network, host, port, timeout)"),
@@ -370,7 +477,7 @@ def run(ctx):
         "distinct_nontrivial": len(texts),
         "rule": "one evaluation = one input run through the real endpoint package and judged by Oracle_Endpoint; "
                 "distinct = distinct input texts (conversion-only records count once)",
-        "exhaustive": "all token sequences up to length %d over 41 option tokens, all orders of all subsets of up to %d distinct options, "
+        "exhaustive": "all token sequences up to length %d over 42 option tokens, all orders of all subsets of up to %d distinct options, "
                       "all strings up to length %d over the 11-character alphabet; the rest is seeded sampling"
                       % (ctx.pick(2, 3), ctx.pick(3, 5), short_len),
     }
